@@ -147,6 +147,7 @@ def entrypoint_probe(reach):
             pass
         finally:
             results[verbose] = root.level
+            logging.indent = None            # pyikev2.py sets it; later runs in this process must not inherit it
             sys.argv = argv
             try:
                 signal.signal(signal.SIGINT, old_sig)
